@@ -110,7 +110,7 @@ func main() {
 			"application state is that of the scripted ABI (hash chain), reverted through labi.Revert",
 		},
 	}, func(c *mon.Ctx) {
-		c.Cases("seq", c.N(400, 12000), func(k *mon.Case) {
+		c.Cases("seq", c.N(2400, 40000), func(k *mon.Case) {
 			r := k.R
 			g := node.EqualGenesis(1 + r.Intn(5))
 			if r.Intn(2) == 0 {
